@@ -28,6 +28,15 @@ RULE = ('world sizes 1..8; trajectory length vectors with 1..6 frames per trajec
         '(draws recorded) or invalid proposals (owner >= w, index past the owner\'s frames, wrong length), compared '
         'exactly with Model/MpiPam.lean per rank and per sweep (labels, distances, medoid pairs, broadcast medoid '
         'frames, accept flags, global costs) and with the serial sweep on the concatenated data. '
+        'Blind-spot families (predicate only, tagged model-skipped-*): local arrays with > 255 and > 65535 '
+        'frames and > 255 clusters through a tie-free functional (hashed pair) metric; world size equal to / one '
+        'less than the number of trajectories; data ids as float64/float32/int64/int32; lengths as '
+        'ndarray/list/tuple/int32; tables scaled by 2**-30 / 2**30 and shifted by 2**20 / 2**30 (near-ties); '
+        'use_triangle_inequality=True; every ops function on int16/int32/int64/uint8/float32/float64/bool data '
+        'that is mixed-sign, all-negative or all-equal, with index arguments as tuples/lists/int64/int32 ndarrays, '
+        'called twice with the SAME objects (arguments must stay unchanged); k-medoids warm-started under MPI from '
+        'the very arrays distributed k-centers returned; 12 and 101 files, strides up to 5, float32/int32 files; '
+        'arrival orders: random sleeps, highest-rank-first staggering, one straggler; init_centers under MPI. '
         'A case is non-trivial when more than one rank holds data (w >= 2) and the '
         'call succeeds; distinct by canonical input')
 ASSUMPTIONS = [
@@ -99,6 +108,9 @@ def equal_rows_key(w, L, outcome):
     return None
 
 
+JIT_MODES = {}
+
+
 def _is_abort(e):
     return isinstance(e, RuntimeError) and 'mpi stub aborted' in str(e)
 
@@ -111,12 +123,21 @@ def run_ranks(w, fn, jit_seed=None, timeout=20.0):
     jitter = None
     if jit_seed is not None and w > 1:
         gens = [np.random.default_rng([int(jit_seed), r]) for r in range(w)]
+        mode = {6: 2, 7: 3}.get(int(jit_seed) % 8, 0)   # arrival orders: random, 2 highest rank first, 3 one straggler
+        JIT_MODES[mode] = JIT_MODES.get(mode, 0) + 1
+        straggler = (int(jit_seed) // 8) % w
 
         def jitter(r):
-            g = gens[r]
-            u = g.random()
-            if u < 0.35:
-                time.sleep(u * 6e-4)
+            if mode == 2:
+                time.sleep((w - 1 - r) * 2e-5)
+            elif mode == 3:
+                if r == straggler:
+                    time.sleep(1.5e-4)
+            else:
+                g = gens[r]
+                u = g.random()
+                if u < 0.35:
+                    time.sleep(u * 6e-4)
     W.size = w
     W.slots = {}
     W.jitter = jitter
@@ -164,6 +185,33 @@ def table(n, dseed):
     iu = np.triu_indices(n, 1)
     D[iu] = g.permutation(n * (n - 1) // 2) + 1
     return D + D.T
+
+
+def case_table(case, n):
+    """the case's table: tie-free integers, optionally shifted by `offset` (near-ties: values differ by a
+    relative 1/offset) and scaled by 2**scale_exp (exact in float64)"""
+    D = table(n, case['dseed'])
+    off, se = case.get('offset', 0), case.get('scale_exp', 0)
+    if off or se:
+        D = np.where(D > 0, (D + off) * 2.0 ** se, 0.0)
+    return D
+
+
+def case_cutoff(case):
+    c = case.get('cutoff', 0)
+    if not c:
+        return 0
+    return (c + case.get('offset', 0)) * 2.0 ** case.get('scale_exp', 0)
+
+
+def lens_container(L, form):
+    if form == 'list':
+        return list(L)
+    if form == 'tuple':
+        return tuple(L)
+    if form == 'int32':
+        return np.array(L, dtype=np.int32)
+    return np.array(L, dtype=int)
 
 
 def make_metric(D):
@@ -255,29 +303,46 @@ def gen_kcenters(rng, w=None):
     else:
         k, cutoff = int(rng.integers(1, min(N, 9) + 1)), int(rng.integers(1, max(2, N * (N - 1) // 4)))
     api = 'func' if rng.random() < 0.75 else 'class'
-    return {'kind': 'kcenters', 'w': w, 'L': L, 'dseed': dseed, 'k': k, 'cutoff': cutoff,
+    case = {'kind': 'kcenters', 'w': w, 'L': L, 'dseed': dseed, 'k': k, 'cutoff': cutoff,
             'api': api, 'jit': int(rng.integers(0, 2 ** 31)), 'mode': mode}
+    if rng.random() < 0.4:                       # dtype / container / scale / near-tie / keyword variety
+        v = rng.random()
+        if v < 0.25:
+            case['xdtype'] = str(rng.choice(['float32', 'int64', 'int32']))
+        elif v < 0.45:
+            case['lens'] = str(rng.choice(['list', 'int32', 'tuple']))
+        elif v < 0.65:
+            case['scale_exp'] = int(rng.choice([-30, 30]))
+        elif v < 0.85:
+            case['offset'] = int(rng.choice([1 << 20, 1 << 30]))
+        else:
+            case['tri'] = True
+            case['api'] = 'func'
+    return case
 
 
-def real_kcenters_serial(N, metric, k, cutoff):
+def real_kcenters_serial(N, metric, k, cutoff, xdtype='float64', tri=False):
     from enspara.cluster import kcenters
-    X = np.arange(N, dtype=float).reshape(-1, 1)
-    return kcenters.kcenters(X, metric, n_clusters=(np.inf if k is None else k), dist_cutoff=cutoff)
+    X = np.arange(N, dtype=xdtype).reshape(-1, 1)
+    return kcenters.kcenters(X, metric, n_clusters=(np.inf if k is None else k), dist_cutoff=cutoff,
+                             use_triangle_inequality=tri)
 
 
 def prep_kcenters(ctx, case):
     quiet()
     from enspara.cluster import kcenters
     from enspara import mpi
-    w, L, k, cutoff = case['w'], case['L'], case['k'], case['cutoff']
+    w, L, k = case['w'], case['L'], case['k']
+    cutoff = case_cutoff(case)
     N = sum(L)
-    D = table(N, case['dseed'])
+    D = case_table(case, N)
     metric = make_metric(D)
-    X = np.arange(N, dtype=float).reshape(-1, 1)
-    Larr = np.array(L, dtype=int)
+    xdtype, tri = case.get('xdtype', 'float64'), bool(case.get('tri', False))
+    X = np.arange(N, dtype=xdtype).reshape(-1, 1)
+    Larr = lens_container(L, case.get('lens', 'ndarray'))
     ser = None
     if N > 0:
-        ser = real_kcenters_serial(N, metric, k, cutoff)
+        ser = real_kcenters_serial(N, metric, k, cutoff, xdtype, tri)
 
     def fn(r):
         loc = X[local_ids(w, L, r)].copy()
@@ -287,7 +352,7 @@ def prep_kcenters(ctx, case):
             res = c.fit(loc).result_
         else:
             res = kcenters.kcenters(loc, metric, n_clusters=(np.inf if k is None else k),
-                                    dist_cutoff=cutoff, mpi_mode=True)
+                                    dist_cutoff=cutoff, mpi_mode=True, use_triangle_inequality=tri)
         raw = {'ctrs': [[int(a), int(b)] for a, b in res.center_indices],
                'dist': [float(x) for x in res.distances], 'assign': to_int_list(res.assignments),
                'centers': [float(np.asarray(c).ravel()[0]) for c in res.centers]}
@@ -298,8 +363,8 @@ def prep_kcenters(ctx, case):
 
     out = run_ranks(w, fn, jit_seed=case['jit'])
     Dj = [[dist_json(x) for x in row] for row in D]
-    reqs = [{'op': 'C14.kcenters_serial', 'n': N, 'D': Dj, 'k': k, 'cutoff': cutoff},
-            {'op': 'C14.kcenters_mpi', 'n': N, 'D': Dj, 'k': k, 'cutoff': cutoff,
+    reqs = [{'op': 'C14.kcenters_serial', 'n': N, 'D': Dj, 'k': k, 'cutoff': rat(cutoff)},
+            {'op': 'C14.kcenters_mpi', 'n': N, 'D': Dj, 'k': k, 'cutoff': rat(cutoff),
              'X': [local_ids(w, L, r) for r in range(w)]},
             {'op': 'C14.local_frames', 'w': w, 'L': L}]
 
@@ -309,6 +374,15 @@ def prep_kcenters(ctx, case):
         tags = ['kcenters', 'w=%d' % w, 'lengths:' + case.get('mode', '?'),
                 'radius-mode' if k is None else ('k>=N' if k >= N else 'k<N'),
                 'api:' + case.get('api', 'func')]
+        if len(L) == w:
+            tags.append('world=number-of-trajectories')
+        if len(L) == w + 1:
+            tags.append('world=number-of-trajectories-1')
+        for key in ('xdtype', 'lens', 'scale_exp', 'offset'):
+            if case.get(key):
+                tags.append('kcenters-%s:%s' % (key, case[key]))
+        if tri:
+            tags.append('kcenters-triangle-shortcut')
         if any(len(local_ids(w, L, r)) == L[r] for r in range(min(w, len(L)))) and not empty_rank:
             tags.append('rank-with-one-trajectory')
         ctx.case(case, nontrivial=(w >= 2 and out.ok), tags=tags)
@@ -350,6 +424,9 @@ def prep_kcenters(ctx, case):
         if any(a != b for a, b in zip(owners, owners[1:])):
             ctx.tag('farthest-point-changes-owner')
         ctx.tag('centers=%d' % min(len(sc), 9))
+        if tri:
+            ctx.tag('model-skipped-triangle-shortcut')   # the shortcut is not modelled (the table is not a metric)
+            return
         # --- correspondence with the model
         if 'ok' not in ms or ms['ok']['ctrs'] != sc or ms['ok']['assign'] != sa or \
                 [from_dist(x) for x in ms['ok']['dist']] != sd:
@@ -409,7 +486,8 @@ def gen_hybrid(rng):
             'k': int(rng.integers(1, min(N, 6) + 1)), 'iters': int(rng.integers(1, 4)),
             'rseed': int(rng.integers(0, 2 ** 31)), 'jit': int(rng.integers(0, 2 ** 31)),
             'rs': 'object' if rng.random() < 0.7 else 'int', 'mode': mode,
-            'api': 'func' if rng.random() < 0.8 else 'class'}
+            'api': 'func' if rng.random() < 0.8 else 'class',
+            'scale_exp': int(rng.choice([0, 0, 0, -30, 30])), 'offset': int(rng.choice([0, 0, 0, 1 << 20]))}
 
 
 def prep_hybrid(ctx, case):
@@ -418,7 +496,7 @@ def prep_hybrid(ctx, case):
     from enspara import mpi
     w, L, k = case['w'], case['L'], case['k']
     N = sum(L)
-    D = table(N, case['dseed'])
+    D = case_table(case, N)
     metric = make_metric(D)
     X = np.arange(N, dtype=float).reshape(-1, 1)
     Larr = np.array(L, dtype=int)
@@ -442,7 +520,8 @@ def prep_hybrid(ctx, case):
 
     def finish(resps):
         ctx.case(case, nontrivial=(w >= 2 and all(o.ok for o in runs)),
-                 tags=['hybrid', 'w=%d' % w, 'pam-sweeps=%d' % case['iters'], 'rs:' + case['rs']])
+                 tags=['hybrid', 'w=%d' % w, 'pam-sweeps=%d' % case['iters'], 'rs:' + case['rs']] +
+                      ['hybrid-%s:%s' % (key, case[key]) for key in ('scale_exp', 'offset') if case.get(key)])
         costs = []
         for it, out in enumerate(runs):
             what = 'hybrid(mpi_mode=True, n_iters=%d) on %d ranks' % (it, w)
@@ -1389,11 +1468,12 @@ def prep_distribute(ctx, case):
 
 # ----------------------------------------------------------------------------- io
 
-def gen_load(rng):
-    T = int(rng.integers(1, 8))
+def gen_load(rng, many=None):
+    T = int(rng.integers(1, 8)) if many is None else many
     w = int(rng.integers(1, min(8, T + 1) + 1))
-    return {'kind': 'load', 'w': w, 'L': [int(rng.integers(1, 7)) for _ in range(T)],
-            'dim': int(rng.integers(1, 4)), 'stride': int(rng.choice([1, 1, 1, 2, 3])),
+    return {'kind': 'load', 'w': w, 'L': [int(rng.integers(1, 12)) for _ in range(T)],
+            'dim': int(rng.integers(1, 4)), 'stride': int(rng.choice([1, 1, 1, 2, 3, 4, 5])),
+            'dtype': str(rng.choice(['float64', 'float64', 'float32', 'int32', 'int64'])),
             'fmt': 'h5' if rng.random() < 0.5 else 'npy', 'jit': int(rng.integers(0, 2 ** 31))}
 
 
@@ -1402,7 +1482,8 @@ def prep_load(ctx, case):
     from enspara import mpi, ra
     w, L, dim, stride, fmt = case['w'], case['L'], case['dim'], case['stride'], case['fmt']
     T = len(L)
-    rows = [np.arange(l * dim, dtype=float).reshape(l, dim) + 100 * (t + 1) for t, l in enumerate(L)]
+    dt = np.dtype(case.get('dtype', 'float64'))
+    rows = [(np.arange(l * dim).reshape(l, dim) + 100 * (t + 1)).astype(dt) for t, l in enumerate(L)]
     tmp = tempfile.mkdtemp(prefix='c14_fixture_')
     try:
         if fmt == 'h5':
@@ -1411,7 +1492,7 @@ def prep_load(ctx, case):
 
             def fn(r):
                 gl, d = mpi.io.load_h5_as_striped(path, stride=stride)
-                return to_int_list(gl), np.asarray(d).tolist()
+                return to_int_list(gl), np.asarray(d).tolist(), str(np.asarray(d).dtype)
         else:
             paths = []
             for t, row in enumerate(rows):
@@ -1421,7 +1502,7 @@ def prep_load(ctx, case):
 
             def fn(r):
                 gl, d = mpi.io.load_npy_as_striped(paths, stride=stride)
-                return to_int_list(gl), np.asarray(d).tolist()
+                return to_int_list(gl), np.asarray(d).tolist(), str(np.asarray(d).dtype)
         out = run_ranks(w, fn, jit_seed=case['jit'])
     finally:
         shutil.rmtree(tmp, ignore_errors=True)
@@ -1430,8 +1511,10 @@ def prep_load(ctx, case):
     def finish(resps):
         m = resps[0]
         ctx.case(case, nontrivial=(w >= 2 and out.ok),
-                 tags=['load_%s_as_striped' % fmt, 'w=%d' % w, 'stride=%d' % stride] +
-                      (['fewer-files-than-ranks'] if T < w else []))
+                 tags=['load_%s_as_striped' % fmt, 'w=%d' % w, 'stride=%d' % stride, 'load-dtype:%s' % dt] +
+                      (['fewer-files-than-ranks'] if T < w else []) +
+                      (['load:%d-or-more-files' % (100 if T >= 100 else 10)] if T >= 10 else []) +
+                      (['load:length%%stride>=2'] if any(l % stride >= 2 for l in L) else []))
         if out.deadlock:
             ctx.violation('load_%s_as_striped left ranks waiting (deadlock)' % fmt, case)
             return
@@ -1447,9 +1530,12 @@ def prep_load(ctx, case):
         if not out.ok:
             ctx.violation('load_%s_as_striped failed: %s' % (fmt, out.describe()), case)
             return
-        for r, (gl, d) in enumerate(out.results):
+        for r, (gl, d, dtn) in enumerate(out.results):
             if d != exp_data[r]:
                 ctx.violation('load_%s_as_striped: rank %d does not hold rows r, r+w, ... of the data' % (fmt, r), case)
+                return
+            if np.dtype(dtn) != dt:
+                ctx.violation('load_%s_as_striped: rank %d holds dtype %s, the files hold %s' % (fmt, r, dtn, dt), case)
                 return
             if gl != exp_len:
                 ctx.violation('load_%s_as_striped(stride=%d): global lengths %s do not describe the loaded data %s'
@@ -1461,7 +1547,7 @@ def prep_load(ctx, case):
             return
         for r in range(w):
             mr = m['ranks'][r]
-            gl, d = out.results[r]
+            gl, d, _ = out.results[r]
             if 'ok' not in mr or mr['ok']['lengths'] != gl or mr['ok']['data'] != d:
                 ctx.disagreement('Model.Mpi.load%sStriped vs load_%s_as_striped on rank %d' % (fmt, fmt, r), case)
                 return
@@ -1514,13 +1600,669 @@ def stripe_scope(ctx):
     ctx.note('stripe_scope_exhaustive', {'cases': len(reqs), 'mismatches': bad})
 
 
+# ----------------------------------------------------------------------------- blind-spot families
+# (size boundaries, dtype / container variety, sign / scale / all-equal data, object reuse, warm starts)
+
+def hash_metric(N, seed, scale_exp=0, offset=0):
+    """tie-free functional metric on frame ids for data sets too large for a table: an injective code of
+    the unordered pair pushed through bijections of [0, 2**bits); every value is exact in float64"""
+    bits = 2 * max(4, int(np.ceil(np.log2(max(N, 2)))))
+    assert bits <= 44
+    M = np.uint64(1 << bits)
+    g = np.random.default_rng([int(seed), int(N)])
+    A = np.uint64(int(g.integers(1, 1 << 30)) * 2 + 1)
+    B = np.uint64(int(g.integers(1, 1 << 30)) * 2 + 1)
+    sc = 2.0 ** scale_exp
+
+    def metric(X, y):
+        a = np.asarray(X)[:, 0].astype(np.int64)
+        b = int(np.asarray(y).ravel()[0])
+        lo = np.minimum(a, b).astype(np.uint64)
+        hi = np.maximum(a, b).astype(np.uint64)
+        v = ((lo * np.uint64(N) + hi) * A) % M           # uint64 wraps mod 2**64, a multiple of M
+        v = v ^ (v >> np.uint64(bits // 2 + 1))
+        v = (v * B) % M
+        return np.where(a == b, 0.0, (v.astype(np.float64) + 1.0 + offset) * sc)
+    return metric
+
+
+def gen_kcenters_big(rng, size):
+    w = int(rng.integers(2, 6))
+    extra = int(rng.choice([0, 1, 2]))
+    T = w + extra
+    if size == 'k>255':
+        L = [int(rng.integers(40, 90)) for _ in range(T)]
+        while sum(L) < 300:
+            L[int(rng.integers(0, T))] += 40
+        k = int(rng.integers(257, 270))
+    elif size == 'local>65535':
+        T = max(T, w + 1)                                   # rank 0 owns two trajectories: local indices
+        L = [int(rng.integers(20000, 30000)) for _ in range(T)]   # 66000 ... 136000 exist on it
+        L[0] = 66000 + int(rng.integers(0, 500))
+        L[w] = 70000 + int(rng.integers(0, 500))
+        k = int(rng.integers(5, 9))
+    else:                                                   # 'local>255'
+        L = [int(rng.integers(1, 120)) for _ in range(T)]
+        L[int(rng.integers(0, T))] = 257 + int(rng.integers(0, 60))
+        k = int(rng.integers(3, 8))
+    return {'kind': 'kcenters-big', 'size': size, 'w': w, 'L': L, 'hseed': int(rng.integers(0, 2 ** 31)), 'k': k,
+            'xdtype': str(rng.choice(['float64', 'float64', 'int64', 'int32'])),
+            'lens': str(rng.choice(['ndarray', 'list', 'int32'])),
+            'scale_exp': int(rng.choice([0, 0, -30, 30])), 'offset': int(rng.choice([0, 0, 1 << 30])),
+            'tri': bool(rng.random() < 0.15), 'jit': int(rng.integers(0, 2 ** 31))}
+
+
+def fast_local_ids(w, L, r):
+    off = offsets(L)
+    parts = [np.arange(off[t], off[t + 1]) for t in range(r, len(L), w)]
+    return np.concatenate(parts) if parts else np.zeros(0, dtype=int)
+
+
+def prep_kcenters_big(ctx, case):
+    """large data sets (local arrays > 255 / > 65535 frames, > 255 clusters): predicate only, no model"""
+    quiet()
+    from enspara.cluster import kcenters
+    from enspara import mpi
+    w, L, k = case['w'], case['L'], case['k']
+    N = sum(L)
+    metric = hash_metric(N, case['hseed'], case['scale_exp'], case['offset'])
+    X = np.arange(N, dtype=case['xdtype']).reshape(-1, 1)
+    ser = kcenters.kcenters(X.copy(), metric, n_clusters=k, use_triangle_inequality=case['tri'])
+    sc = np.array([int(c) for c in ser.center_indices])
+    lens = lens_container(L, case['lens'])
+    locs = [X[fast_local_ids(w, L, r)].copy() for r in range(w)]
+    snap = [l.tobytes() for l in locs]
+
+    def fn(r):
+        outs = []
+        for rep in range(1 if case['size'] == 'k>255' else 2):   # the same data object twice
+            res = kcenters.kcenters(locs[r], metric, n_clusters=k, mpi_mode=True,
+                                    use_triangle_inequality=case['tri'])
+            d = mpi.ops.assemble_striped_ragged_array(res.distances, lens)
+            a = mpi.ops.assemble_striped_ragged_array(res.assignments, lens)
+            c = np.array([int(x) for x in mpi.ops.convert_local_indices(res.center_indices, lens)])
+            ctr_ok = [float(np.asarray(f).ravel()[0]) for f in res.centers] == [float(g) for g in sc]
+            outs.append((bool(len(c) == len(sc) and (c == sc).all()),
+                         bool(a.shape == ser.assignments.shape and (a == ser.assignments).all()),
+                         bool(d.shape == ser.distances.shape and (d == ser.distances).all()), ctr_ok,
+                         int(a.max()), max(int(i) for _, i in res.center_indices),
+                         len({int(o) for o, _ in res.center_indices})))
+        return outs, locs[r].tobytes() == snap[r]
+    out = run_ranks(w, fn, jit_seed=case['jit'], timeout=90.0)
+
+    def finish(resps):
+        tags = ['kcenters-big', 'big:' + case['size'], 'w=%d' % w, 'model-skipped-large',
+                'kcenters-xdtype:' + case['xdtype'], 'kcenters-lens:' + case['lens']]
+        if len(L) == w:
+            tags.append('world=number-of-trajectories')
+        if len(L) == w + 1:
+            tags.append('world=number-of-trajectories-1')
+        if case['tri']:
+            tags.append('kcenters-triangle-shortcut')
+        for key in ('scale_exp', 'offset'):
+            if case[key]:
+                tags.append('kcenters-%s:%s' % (key, case[key]))
+        ctx.case(case, nontrivial=out.ok, tags=tags)
+        if not out.ok:
+            ctx.violation('kcenters(mpi_mode=True) + reassembly failed on a large data set: %s' % out.describe(), case)
+            return
+        for r, (outs, same) in enumerate(out.results):
+            for rep, (c_ok, a_ok, d_ok, f_ok, amax, imax, nown) in enumerate(outs):
+                what = 'rank %d, call %d on the same data' % (r, rep + 1)
+                if not c_ok:
+                    ctx.violation('%s: distributed k-centers centers (global) differ from the serial centers' % what, case)
+                    return
+                if not a_ok:
+                    ctx.violation('%s: reassembled labels differ from the serial labels' % what, case)
+                    return
+                if not d_ok:
+                    ctx.violation('%s: reassembled distances differ from the serial distances' % what, case)
+                    return
+                if not f_ok:
+                    ctx.violation('%s: center frames are not the frames at the serial center indices' % what, case)
+                    return
+            if not same:
+                ctx.violation('rank %d: kcenters(mpi_mode=True) modified its data' % r, case)
+                return
+        amax, imax, nown = out.results[0][0][0][4:]
+        if amax > 255:
+            ctx.tag('label>255')
+        if imax > 65535:
+            ctx.tag('local-center-index>65535')
+        elif imax > 255:
+            ctx.tag('local-center-index>255')
+        if nown > 1:
+            ctx.tag('farthest-point-changes-owner')
+    return [], finish
+
+
+DTYPES_RAGGED = ['int64', 'int32', 'int16', 'float64', 'float32', 'bool', 'uint8']
+
+
+def values_for(rng_or_seed, n, dtype, mode):
+    """exactly representable test values of the given dtype: mixed sign, all negative or all equal"""
+    g = np.random.default_rng(rng_or_seed)
+    dt = np.dtype(dtype)
+    if dt == np.bool_:
+        v = g.integers(0, 2, size=n).astype(bool)
+        return np.ones(n, dtype=bool) if mode == 'all-equal' else v
+    unsigned = dt.kind == 'u'
+    if mode == 'all-equal':
+        c = int(g.integers(1, 100)) if unsigned else int(g.integers(-100, 100))
+        v = np.full(n, c)
+    elif mode == 'all-negative' and not unsigned:
+        v = -g.integers(1, 100, size=n)
+    else:
+        v = g.integers(0 if unsigned else -100, 100, size=n)
+    if dt.kind == 'f':
+        return (v / 4.0).astype(dt)
+    return v.astype(dt)
+
+
+def gen_ragged_variety(rng, big=None):
+    w = int(rng.integers(1, 9))
+    T = w + int(rng.choice([0, 1, 1, 2, 5]))
+    L = [int(rng.integers(1, 7)) for _ in range(T)]
+    if big:
+        L[int(rng.integers(0, T))] = big + int(rng.integers(1, 50))
+    return {'kind': 'ragged-variety', 'w': w, 'L': L, 'dtype': str(rng.choice(DTYPES_RAGGED)),
+            'lens': str(rng.choice(['ndarray', 'list', 'int32', 'tuple'])),
+            'mode': str(rng.choice(['mixed', 'all-negative', 'all-equal'])),
+            'vseed': int(rng.integers(0, 2 ** 31)), 'jit': int(rng.integers(0, 2 ** 31))}
+
+
+def prep_ragged_variety(ctx, case):
+    """assemble_striped_ragged_array for every dtype / lengths container, twice with the same objects"""
+    quiet()
+    from enspara import mpi
+    w, L = case['w'], case['L']
+    N = sum(L)
+    xs = values_for(case['vseed'], N, case['dtype'], case['mode'])
+    locs = [xs[fast_local_ids(w, L, r)].copy() for r in range(w)]
+    lens = lens_container(L, case['lens'])
+    snap = [l.tobytes() for l in locs]
+
+    def fn(r):
+        oks = []
+        for rep in range(2):
+            res = mpi.ops.assemble_striped_ragged_array(locs[r], lens)
+            oks.append((bool(res.shape == xs.shape and (res == xs).all()), str(res.dtype)))
+        return oks, locs[r].tobytes() == snap[r], list(lens) == list(L)
+    out = run_ranks(w, fn, jit_seed=case['jit'], timeout=60.0)
+
+    def finish(resps):
+        big = max(len(l) for l in locs)
+        ctx.case(case, nontrivial=(w >= 2 and out.ok),
+                 tags=['ragged-variety', 'w=%d' % w, 'ragged-dtype:' + case['dtype'], 'ragged-lens:' + case['lens'],
+                       'data:' + case['mode'], 'model-skipped-dtype-variety'] +
+                      (['ragged-local>65535'] if big > 65535 else ['ragged-local>255'] if big > 255 else []) +
+                      (['world=number-of-trajectories'] if len(L) == w else []) +
+                      (['world=number-of-trajectories-1'] if len(L) == w + 1 else []))
+        if not out.ok:
+            ctx.violation('assemble_striped_ragged_array(%s data, lengths as %s) failed: %s'
+                          % (case['dtype'], case['lens'], out.describe()), case)
+            return
+        for r, (oks, same, lsame) in enumerate(out.results):
+            for rep, (ok, dtn) in enumerate(oks):
+                if not ok:
+                    ctx.violation('assemble_striped_ragged_array: rank %d, call %d does not give the global %s array back'
+                                  % (r, rep + 1, case['dtype']), case)
+                    return
+                if np.dtype(dtn) != xs.dtype:
+                    ctx.violation('assemble_striped_ragged_array: dtype %s, expected %s' % (dtn, xs.dtype), case)
+                    return
+            if not same or not lsame:
+                ctx.violation('assemble_striped_ragged_array modified its arguments on rank %d' % r, case)
+                return
+    return [], finish
+
+
+def gen_array_variety(rng, big=None):
+    w = int(rng.integers(2, 9))
+    n = int(rng.integers(w, 4 * w + 3)) if not big else big + int(rng.integers(1, 40))
+    return {'kind': 'array-variety', 'w': w, 'n': n, 'dtype': str(rng.choice(['int64', 'int32', 'int16', 'uint8', 'uint16'])),
+            'mode': str(rng.choice(['mixed', 'all-equal'])), 'vseed': int(rng.integers(0, 2 ** 31)),
+            'jit': int(rng.integers(0, 2 ** 31))}
+
+
+def prep_array_variety(ctx, case):
+    quiet()
+    from enspara import mpi
+    w, n = case['w'], case['n']
+    g = np.random.default_rng(case['vseed'])
+    a = (np.full(n, int(g.integers(1, 100))) if case['mode'] == 'all-equal'
+         else g.integers(1, 100, size=n)).astype(case['dtype'])
+    parts = [a[r::w].copy() for r in range(w)]
+    snap = [p.tobytes() for p in parts]
+
+    def fn(r):
+        oks = []
+        for rep in range(2):
+            res = mpi.ops.assemble_striped_array(parts[r])
+            oks.append((bool(res.shape == a.shape and (res == a).all()), str(res.dtype)))
+        return oks, parts[r].tobytes() == snap[r]
+    out = run_ranks(w, fn, jit_seed=case['jit'], timeout=60.0)
+
+    def finish(resps):
+        ctx.case(case, nontrivial=out.ok,
+                 tags=['array-variety', 'w=%d' % w, 'array-dtype:' + case['dtype'], 'model-skipped-dtype-variety'] +
+                      (['array-n>65535'] if n > 65535 else ['array-n>255'] if n > 255 else []))
+        if not out.ok:
+            ctx.violation('assemble_striped_array(%s) failed: %s' % (case['dtype'], out.describe()), case)
+            return
+        for r, (oks, same) in enumerate(out.results):
+            if any(not ok for ok, _ in oks):
+                ctx.violation('assemble_striped_array: rank %d does not get the global %s array back' % (r, case['dtype']), case)
+                return
+            if any(np.dtype(dtn) != a.dtype for _, dtn in oks):
+                ctx.violation('assemble_striped_array: dtype changed from %s' % a.dtype, case)
+                return
+            if not same:
+                ctx.violation('assemble_striped_array modified its argument on rank %d' % r, case)
+                return
+    return [], finish
+
+
+def gen_convert_variety(rng, big=None):
+    w = int(rng.integers(1, 9))
+    T = w + int(rng.choice([0, 1, 1, 3]))
+    L = [int(rng.integers(1, 7)) for _ in range(T)]
+    if big:
+        L[int(rng.integers(0, T))] = big + int(rng.integers(1, 50))
+    return {'kind': 'convert-variety', 'w': w, 'L': L, 'pairs': str(rng.choice(['tuples', 'lists', 'ndarray', 'int32'])),
+            'lens': str(rng.choice(['ndarray', 'list', 'int32'])), 'pseed': int(rng.integers(0, 2 ** 31)),
+            'jit': int(rng.integers(0, 2 ** 31))}
+
+
+def prep_convert_variety(ctx, case):
+    """convert_local_indices / ctr_ids_mpi for every container of the index arguments and of the lengths,
+    called twice with the same objects; also local indices beyond 255 / 65535"""
+    quiet()
+    from enspara import mpi
+    from enspara.cluster import kmedoids
+    w, L = case['w'], case['L']
+    N = sum(L)
+    ids = [fast_local_ids(w, L, r) for r in range(w)]
+    g = np.random.default_rng(case['pseed'])
+    pairs = []
+    for r in range(w):
+        m = len(ids[r])
+        pick = {0, m - 1} | {x for x in (255, 256, 65535, 65536) if x < m} | \
+            {int(x) for x in g.integers(0, m, size=3)}
+        pairs += [(r, i) for i in sorted(pick)]
+    exp = [int(ids[r][i]) for r, i in pairs]
+    off = offsets(L)
+    traj = [int(np.searchsorted(off, gl, side='right') - 1) for gl in exp]
+    tf = [(t, int(gl - off[t])) for t, gl in zip(traj, exp)]
+    form = case['pairs']
+
+    def box(ps):
+        if form == 'tuples':
+            return [tuple(p) for p in ps]
+        if form == 'lists':
+            return [list(p) for p in ps]
+        return np.array(ps, dtype=(np.int32 if form == 'int32' else np.int64))
+    lens = lens_container(L, case['lens'])
+    a_pairs, a_tf = box(pairs), box(tf)
+    a_flat = exp if form in ('tuples', 'lists') else np.array(exp, dtype=(np.int32 if form == 'int32' else np.int64))
+    snap = repr((a_pairs, a_tf, a_flat, lens))
+
+    def fn(r):
+        res = []
+        for rep in range(2):
+            c = to_int_list(mpi.ops.convert_local_indices(a_pairs, lens))
+            p = [(int(x), int(y)) for x, y in kmedoids.ctr_ids_mpi(a_tf, lens)]
+            f = [(int(x), int(y)) for x, y in kmedoids.ctr_ids_mpi(a_flat, lens)]
+            res.append((c, p, f))
+        return res
+    out = run_ranks(w, fn, jit_seed=case['jit'], timeout=60.0)
+
+    def finish(resps):
+        big = max(len(i) for i in ids)
+        ctx.case(case, nontrivial=(w >= 2 and out.ok),
+                 tags=['convert-variety', 'w=%d' % w, 'index-container:' + form, 'convert-lens:' + case['lens'],
+                       'model-skipped-dtype-variety'] +
+                      (['local-index>65535'] if big > 65536 else ['local-index>255'] if big > 256 else []))
+        if not out.ok:
+            ctx.violation('convert_local_indices / ctr_ids_mpi (indices as %s, lengths as %s) failed: %s'
+                          % (form, case['lens'], out.describe()), case)
+            return
+        for r, res in enumerate(out.results):
+            for rep, (c, p, f) in enumerate(res):
+                if c != exp:
+                    ctx.violation('convert_local_indices (indices as %s): rank %d call %d gives %s, expected %s'
+                                  % (form, r, rep + 1, c[:8], exp[:8]), case)
+                    return
+                if p != pairs:
+                    ctx.violation('ctr_ids_mpi((traj, frame) as %s): rank %d call %d gives wrong (rank, local) pairs'
+                                  % (form, r, rep + 1), case)
+                    return
+                if f != pairs:
+                    ctx.violation('ctr_ids_mpi(flat ids as %s): rank %d call %d gives wrong (rank, local) pairs'
+                                  % (form, r, rep + 1), case)
+                    return
+        if repr((a_pairs, a_tf, a_flat, lens)) != snap:
+            ctx.violation('convert_local_indices / ctr_ids_mpi modified an argument', case)
+    return [], finish
+
+
+def gen_reduce_variety(rng, big=None):
+    w = int(rng.integers(1, 9))
+    mode = str(rng.choice(['mixed', 'all-negative', 'all-equal', 'one-element-per-rank']))
+    lens = [1] * w if mode == 'one-element-per-rank' else [int(rng.integers(1, 7)) for _ in range(w)]
+    if big:
+        lens[int(rng.integers(0, w))] = big + int(rng.integers(1, 50))
+    dtype = str(rng.choice(['float64', 'float32', 'int64', 'int32', 'bool']))
+    return {'kind': 'reduce-variety', 'lens': lens, 'mode': mode, 'dtype': dtype,
+            'scale_exp': int(rng.choice([0, -30, 30])) if dtype.startswith('float') else 0,
+            'vseed': int(rng.integers(0, 2 ** 31)), 'jit': int(rng.integers(0, 2 ** 31))}
+
+
+def prep_reduce_variety(ctx, case):
+    """striped_array_max / striped_array_mean on all-negative, all-equal, mixed-sign, scaled data of every
+    dtype; the same local arrays go through max, mean, max, mean"""
+    quiet()
+    from enspara import mpi
+    import warnings
+    lens = case['lens']
+    w = len(lens)
+    mode = 'mixed' if case['mode'] == 'one-element-per-rank' else case['mode']
+    allv = values_for(case['vseed'], sum(lens), case['dtype'], mode)
+    if case['scale_exp']:
+        allv = (allv * allv.dtype.type(2.0 ** case['scale_exp'])).astype(allv.dtype)
+    cuts = np.concatenate([[0], np.cumsum(lens)])
+    locs = [allv[cuts[r]:cuts[r + 1]].copy() for r in range(w)]
+    snap = [l.tobytes() for l in locs]
+
+    def fn(r):
+        with warnings.catch_warnings():
+            warnings.simplefilter('ignore')
+            res = []
+            for rep in range(2):
+                res.append(mpi.ops.striped_array_max(locs[r]))
+                res.append(mpi.ops.striped_array_mean(locs[r]))
+        return [float(x) for x in res], locs[r].tobytes() == snap[r]
+    out = run_ranks(w, fn, jit_seed=case['jit'], timeout=60.0)
+
+    def finish(resps):
+        ctx.case(case, nontrivial=(w >= 2 and out.ok),
+                 tags=['reduce-variety', 'w=%d' % w, 'reduce-dtype:' + case['dtype'], 'data:' + case['mode'],
+                       'model-skipped-dtype-variety'] +
+                      (['reduce-scale:2^%d' % case['scale_exp']] if case['scale_exp'] else []) +
+                      (['reduce-local>65535'] if max(lens) > 65535 else ['reduce-local>255'] if max(lens) > 255 else []))
+        if not out.ok:
+            ctx.violation('striped_array_max / striped_array_mean on %s %s data failed: %s'
+                          % (case['mode'], case['dtype'], out.describe()), case)
+            return
+        emax = float(allv.max())
+        exact = Fraction(0)
+        for x in allv.tolist():
+            exact += Fraction(float(x))
+        exact /= len(allv)
+        # one float32 division (float32 sums of these values are exact); float64 otherwise
+        tol = 2e-7 if case['dtype'] == 'float32' else 1e-12
+        for r, (res, same) in enumerate(out.results):
+            for rep in (0, 2):
+                if res[rep] != emax:
+                    ctx.violation('striped_array_max (%s, %s): rank %d returns %r, the maximum of the whole array is %r'
+                                  % (case['mode'], case['dtype'], r, res[rep], emax), case)
+                    return
+                if abs(res[rep + 1] - float(exact)) > tol * max(abs(float(exact)), 2.0 ** case['scale_exp'] / 4):
+                    ctx.violation('striped_array_mean (%s, %s): rank %d returns %r, the mean of the whole array is %r'
+                                  % (case['mode'], case['dtype'], r, res[rep + 1], float(exact)), case)
+                    return
+            if res[0:2] != res[2:4]:
+                ctx.violation('striped reductions give a different result the second time on the same arrays', case)
+                return
+            if not same:
+                ctx.violation('a striped reduction modified its argument on rank %d' % r, case)
+                return
+    return [], finish
+
+
+def gen_randind_big(rng, big):
+    w = int(rng.integers(2, 7))
+    n = big + int(rng.integers(1, 300))
+    return {'kind': 'randind-big', 'w': w, 'n': n, 'seed': int(rng.integers(0, 2 ** 31)),
+            'extra': [int(x) for x in rng.integers(0, n, size=3)], 'jit': int(rng.integers(0, 2 ** 31))}
+
+
+def prep_randind_big(ctx, case):
+    """randind on a packed striped array with more than 255 / 65535 elements: draw g must be element g"""
+    quiet()
+    from enspara import mpi
+    w, n = case['w'], case['n']
+    lens = [len(range(r, n, w)) for r in range(w)]
+    draws = sorted({0, n - 1, *[x for x in (255, 256, 257, 65535, 65536, 65537) if x < n], *case['extra']})
+
+    class Draw(np.random.RandomState):
+        def __init__(self, v):
+            super().__init__(0)
+            self.v = v
+
+        def randint(self, low, *a, **k):
+            return self.v
+    seed = case['seed'] % 2 ** 31
+
+    def fn(r):
+        loc = np.zeros(lens[r])
+        got = [tuple(int(x) for x in mpi.ops.randind(loc, Draw(g))) for g in draws]
+        got.append(tuple(int(x) for x in mpi.ops.randind(loc, seed)))          # an int seed
+        return got
+    out = run_ranks(w, fn, jit_seed=case['jit'], timeout=90.0)
+
+    def finish(resps):
+        ctx.case(case, nontrivial=out.ok, tags=['randind-big', 'w=%d' % w, 'model-skipped-large',
+                                                'randind-n>65535' if n > 65535 else 'randind-n>255'])
+        if not out.ok:
+            ctx.violation('randind on %d elements failed: %s' % (n, out.describe()), case)
+            return
+        gs = int(np.random.RandomState(seed).randint(n))
+        exp = [(g % w, g // w) for g in draws] + [(gs % w, gs // w)]
+        for r, got in enumerate(out.results):
+            if got != exp:
+                bad = [(g, a, b) for g, a, b in zip(draws + [gs], got, exp) if a != b][:3]
+                ctx.violation('randind on a packed array of %d elements: rank %d maps draw -> element wrongly: %s'
+                              % (n, r, bad), case)
+                return
+    return [], finish
+
+
+def gen_distribute_variety(rng, big=None):
+    w = int(rng.integers(1, 9))
+    ms = [int(rng.integers(1, 5)) for _ in range(w)]
+    owner = int(rng.integers(0, w))
+    if big:
+        ms[owner] = big + int(rng.integers(2, 40))
+    idx = int(rng.integers(0, ms[owner])) if not big else ms[owner] - 1 - int(rng.integers(0, 2))
+    return {'kind': 'distribute-variety', 'ms': ms, 'owner': owner, 'idx': idx,
+            'shape': [int(x) for x in rng.integers(1, 4, size=int(rng.integers(0, 3)))],
+            'dtype': str(rng.choice(['float64', 'float32', 'int64', 'int32', 'bool'])),
+            'mode': str(rng.choice(['mixed', 'all-negative', 'all-equal'])),
+            'vseed': int(rng.integers(0, 2 ** 31)), 'jit': int(rng.integers(0, 2 ** 31))}
+
+
+def prep_distribute_variety(ctx, case):
+    quiet()
+    from enspara import mpi
+    ms, owner, idx, shape = case['ms'], case['owner'], case['idx'], tuple(case['shape'])
+    w = len(ms)
+    per = int(np.prod(shape)) if shape else 1
+    data = [values_for([case['vseed'], r], m * per, case['dtype'], case['mode']).reshape((m,) + shape)
+            for r, m in enumerate(ms)]
+    snap = [d.tobytes() for d in data]
+
+    def fn(r):
+        res = []
+        for rep in range(2):
+            f = mpi.ops.distribute_frame(data[r], idx, owner)
+            res.append((np.asarray(f).tolist(), str(np.asarray(f).dtype), list(np.shape(f))))
+        return res, data[r].tobytes() == snap[r]
+    out = run_ranks(w, fn, jit_seed=case['jit'])
+
+    def finish(resps):
+        ctx.case(case, nontrivial=(w >= 2 and out.ok),
+                 tags=['distribute-variety', 'w=%d' % w, 'frame-dtype:' + case['dtype'], 'frame-ndim=%d' % len(shape),
+                       'data:' + case['mode'], 'model-skipped-dtype-variety'] +
+                      (['frame-index>65535'] if idx > 65535 else ['frame-index>255'] if idx > 255 else []))
+        if not out.ok:
+            ctx.violation('distribute_frame(%s frames of shape %s) failed: %s' % (case['dtype'], shape, out.describe()), case)
+            return
+        exp = (data[owner][idx].tolist(), str(data[owner].dtype), list(shape))
+        for r, (res, same) in enumerate(out.results):
+            for rep, got in enumerate(res):
+                if got != exp:
+                    ctx.violation('distribute_frame: rank %d call %d received %s, the owner holds %s'
+                                  % (r, rep + 1, str(got)[:120], str(exp)[:120]), case)
+                    return
+            if not same:
+                ctx.violation('distribute_frame modified rank %d\'s data' % r, case)
+                return
+    return [], finish
+
+
+def gen_warm(rng):
+    w = int(rng.integers(2, 9))
+    L, mode = gen_lengths(rng, w, extra_max=4, lmax=5)
+    N = sum(L)
+    return {'kind': 'warm-ndarray', 'w': w, 'L': L, 'dseed': int(rng.integers(0, 2 ** 31)),
+            'k': int(rng.integers(1, min(N, 6) + 1)), 'iters': int(rng.integers(1, 3)),
+            'pseed': int(rng.integers(0, 2 ** 31)), 'centers': str(rng.choice(['ndarray', 'int32', 'lists'])),
+            'scale_exp': int(rng.choice([0, 0, -30, 30])), 'jit': int(rng.integers(0, 2 ** 31)), 'mode': mode}
+
+
+def prep_warm(ctx, case):
+    """call history: the arrays RETURNED by distributed k-centers are handed (the same objects, centers as an
+    ndarray like np.load gives) to k-medoids under MPI, twice; both runs must equal serial PAM"""
+    quiet()
+    from enspara.cluster import kcenters, kmedoids
+    from enspara import mpi
+    w, L, k = case['w'], case['L'], case['k']
+    N = sum(L)
+    D = case_table(case, N)
+    metric = make_metric(D)
+    X = np.arange(N, dtype=float).reshape(-1, 1)
+    Larr = np.array(L, dtype=int)
+    start = real_kcenters_serial(N, metric, k, 0)
+    c0, a0, d0 = to_int_list(start.center_indices), np.array(start.assignments), np.array(start.distances)
+    g = np.random.default_rng(case['pseed'])
+    props = [int(g.choice(np.where(a0 == j)[0])) for j in range(k)]
+    ser = kmedoids.kmedoids(X, metric, n_iters=case['iters'], assignments=a0.copy(), distances=d0.copy(),
+                            cluster_center_inds=list(c0), proposals=list(props))
+    exp = (to_int_list(ser.center_indices), to_int_list(ser.assignments), [float(x) for x in ser.distances])
+    off = offsets(L)
+
+    def fn(r):
+        ids = local_ids(w, L, r)
+        loc = X[ids].copy()
+        first = kcenters.kcenters(loc, metric, n_clusters=k, mpi_mode=True)
+        glob = mpi.ops.convert_local_indices(first.center_indices, Larr)
+        tf = [[int(np.searchsorted(off, gl, side='right') - 1)] for gl in glob]
+        tf = [[t[0], int(gl - off[t[0]])] for t, gl in zip(tf, glob)]
+        if case['centers'] != 'lists':
+            tf = np.array(tf, dtype=(np.int32 if case['centers'] == 'int32' else np.int64))
+        before = (first.assignments.tobytes(), first.distances.tobytes(), loc.tobytes())
+        outs = []
+        for rep in range(2):
+            res = kmedoids.kmedoids(loc, metric, n_iters=case['iters'], assignments=first.assignments,
+                                    distances=first.distances, cluster_center_inds=tf, X_lengths=list(L),
+                                    proposals=[global_to_local(w, L, p) for p in props])
+            d = mpi.ops.assemble_striped_ragged_array(res.distances, Larr)
+            a = mpi.ops.assemble_striped_ragged_array(res.assignments, Larr)
+            c = mpi.ops.convert_local_indices(res.center_indices, Larr)
+            outs.append((to_int_list(c), to_int_list(a), [float(x) for x in d]))
+        same = before == (first.assignments.tobytes(), first.distances.tobytes(), loc.tobytes())
+        return outs, same
+    out = run_ranks(w, fn, jit_seed=case['jit'])
+
+    def finish(resps):
+        ctx.case(case, nontrivial=out.ok, tags=['warm-start-from-returned-ndarrays', 'w=%d' % w,
+                                                'warm-centers:' + case['centers'], 'model-skipped-call-history'] +
+                 (['warm-scale:2^%d' % case['scale_exp']] if case['scale_exp'] else []))
+        if not out.ok:
+            ctx.violation('kcenters(mpi) -> kmedoids(mpi, warm start from the returned arrays) failed: %s'
+                          % out.describe(), case)
+            return
+        for r, (outs, same) in enumerate(out.results):
+            for rep, got in enumerate(outs):
+                if got != exp:
+                    ctx.violation('rank %d: warm-started distributed k-medoids (call %d on the same arrays) differs '
+                                  'from serial k-medoids with the same proposals' % (r, rep + 1), case)
+                    return
+            if not same:
+                ctx.tag('warm-start-inputs-modified')      # not part of the property; the second call checks the effect
+        if exp[0] != c0:
+            ctx.tag('pam-accepted-a-proposal')
+    return [], finish
+
+
+def gen_init(rng):
+    w = int(rng.integers(2, 6))
+    L, mode = gen_lengths(rng, w, extra_max=3, lmax=4)
+    N = sum(L)
+    k0 = int(rng.integers(1, min(N, 4) + 1))
+    return {'kind': 'kcenters-init', 'w': w, 'L': L, 'dseed': int(rng.integers(0, 2 ** 31)),
+            'init': sorted(int(x) for x in rng.choice(N, size=k0, replace=False)),
+            'k': k0 + int(rng.integers(0, 3)), 'jit': int(rng.integers(0, 2 ** 31)), 'mode': mode}
+
+
+def prep_init(ctx, case):
+    """kcenters(mpi_mode=True, init_centers=frames of the data) against the serial run with the same centers"""
+    quiet()
+    from enspara.cluster import kcenters
+    from enspara import mpi
+    w, L, k, init = case['w'], case['L'], case['k'], case['init']
+    N = sum(L)
+    D = table(N, case['dseed'])
+    metric = make_metric(D)
+    X = np.arange(N, dtype=float).reshape(-1, 1)
+    Larr = np.array(L, dtype=int)
+    ser = kcenters.kcenters(X.copy(), metric, n_clusters=k, init_centers=X[init].copy())
+    exp = (to_int_list(ser.center_indices), to_int_list(ser.assignments), [float(x) for x in ser.distances])
+
+    def fn(r):
+        res = kcenters.kcenters(X[local_ids(w, L, r)].copy(), metric, n_clusters=k, init_centers=X[init].copy(),
+                                mpi_mode=True)
+        d = mpi.ops.assemble_striped_ragged_array(res.distances, Larr)
+        a = mpi.ops.assemble_striped_ragged_array(res.assignments, Larr)
+        pairs = all(hasattr(c, '__len__') and len(c) == 2 for c in res.center_indices)
+        c = to_int_list(mpi.ops.convert_local_indices(res.center_indices, Larr)) if pairs else None
+        return c, to_int_list(a), [float(x) for x in d]
+    out = run_ranks(w, fn, jit_seed=case['jit'], timeout=4.0)
+
+    def finish(resps):
+        ctx.case(case, nontrivial=out.ok, tags=['kcenters-init-centers', 'w=%d' % w, 'model-skipped-init-centers'])
+        key = 'kcenters-mpi-init-centers'
+        if out.deadlock:
+            ctx.violation('kcenters(mpi_mode=True, init_centers=...): the ranks disagree on the number of centers '
+                          'and wait for each other (deadlock)', case, key=key)
+            return
+        if not out.ok:
+            ctx.violation('kcenters(mpi_mode=True, init_centers=...) failed: %s' % out.describe(), case, key=key)
+            return
+        for r, (c, a, d) in enumerate(out.results):
+            if c is None:
+                ctx.violation('kcenters(mpi_mode=True, init_centers=...): center_indices holds rank-local flat '
+                              'indices for the initial centers, not (rank, index) pairs', case, key=key)
+                return
+            if (c, a, d) != exp:
+                ctx.violation('kcenters(mpi_mode=True, init_centers=...): rank %d differs from the serial run' % r,
+                              case, key=key)
+                return
+    return [], finish
+
+
 # ----------------------------------------------------------------------------- driver glue
 
 PREP = {'kcenters': prep_kcenters, 'hybrid': prep_hybrid, 'pam': prep_pam, 'pam-model': prep_pam_model,
         'kmedoids-cold': prep_cold,
         'assemble-array': prep_assemble_array, 'assemble-ragged': prep_assemble_ragged,
         'convert': prep_convert, 'maxmean': prep_maxmean, 'randind': prep_randind,
-        'distribute': prep_distribute, 'load': prep_load, 'load-oldstyle': prep_load_oldstyle}
+        'distribute': prep_distribute, 'load': prep_load, 'load-oldstyle': prep_load_oldstyle,
+        'kcenters-big': prep_kcenters_big, 'ragged-variety': prep_ragged_variety,
+        'array-variety': prep_array_variety, 'convert-variety': prep_convert_variety,
+        'reduce-variety': prep_reduce_variety, 'randind-big': prep_randind_big,
+        'distribute-variety': prep_distribute_variety, 'warm-ndarray': prep_warm, 'kcenters-init': prep_init}
 
 FIXED = [
     # the layout that used to break assemble_striped_ragged_array (a rank owning >= 2 equal-length rows)
@@ -1562,7 +2304,13 @@ FIXED = [
 def run_cases(ctx, cases):
     pend, reqs = [], []
     for c in cases:
-        rq, fin = PREP[c['kind']](ctx, c)
+        try:
+            rq, fin = PREP[c['kind']](ctx, c)
+        except Exception as e:  # noqa  -- the serial reference run (main thread) raised
+            ctx.case(c, nontrivial=False, tags=['reference-run-raised'])
+            ctx.violation('the serial reference computation of a %s case raised %s: %s'
+                          % (c['kind'], type(e).__name__, str(e)[:200]), c)
+            continue
         pend.append((len(rq), fin))
         reqs += rq
     resps = ctx.driver(reqs)
@@ -1580,18 +2328,39 @@ def run(ctx):
     # every world size at least once for the clustering
     for w in range(1, 9):
         cases.append(gen_kcenters(rng, w=w))
-    cases += [gen_kcenters(rng) for _ in range(ctx.n(110, 1500))]
+    cases += [gen_kcenters(rng) for _ in range(ctx.n(90, 1200))]
     cases += [gen_hybrid(rng) for _ in range(ctx.n(25, 300))]
     cases += [gen_pam(rng) for _ in range(ctx.n(25, 300))]
     cases += [gen_pam_model(rng) for _ in range(ctx.n(40, 500))]
     cases += [gen_assemble_array(rng) for _ in range(ctx.n(60, 600))]
     cases += [gen_assemble_ragged(rng) for _ in range(ctx.n(80, 800))]
-    cases += [gen_convert(rng) for _ in range(ctx.n(40, 400))]
+    cases += [gen_convert(rng) for _ in range(ctx.n(30, 400))]
     cases += [gen_maxmean(rng) for _ in range(ctx.n(80, 800))]
-    cases += [gen_randind(rng) for _ in range(ctx.n(40, 300))]
+    cases += [gen_randind(rng) for _ in range(ctx.n(30, 300))]
     cases += [gen_distribute(rng) for _ in range(ctx.n(60, 500))]
     cases += [gen_load(rng) for _ in range(ctx.n(30, 300))]
+    # --- blind-spot families: sizes past 255 / 65535, dtypes and containers, sign / scale, reuse, warm starts
+    cases += [gen_load(rng, many=12) for _ in range(ctx.n(3, 30))]
+    cases += [gen_load(rng, many=101) for _ in range(ctx.n(1, 8))]
+    for size, nq, nt in (('local>255', 3, 40), ('k>255', 1, 8), ('local>65535', 1, 10)):
+        cases += [gen_kcenters_big(rng, size) for _ in range(ctx.n(nq, nt))]
+    cases += [gen_ragged_variety(rng) for _ in range(ctx.n(30, 300))]
+    cases += [gen_array_variety(rng) for _ in range(ctx.n(15, 200))]
+    cases += [gen_convert_variety(rng) for _ in range(ctx.n(12, 200))]
+    cases += [gen_reduce_variety(rng) for _ in range(ctx.n(40, 400))]
+    cases += [gen_distribute_variety(rng) for _ in range(ctx.n(30, 250))]
+    for big, nq, nt in ((255, 2, 20), (65535, 1, 8)):
+        cases += [gen_ragged_variety(rng, big) for _ in range(ctx.n(nq, nt))]
+        cases += [gen_array_variety(rng, big) for _ in range(ctx.n(nq, nt))]
+        cases += [gen_convert_variety(rng, big) for _ in range(ctx.n(nq, nt))]
+        cases += [gen_reduce_variety(rng, big) for _ in range(ctx.n(nq, nt))]
+        cases += [gen_randind_big(rng, big) for _ in range(ctx.n(nq, nt))]
+        cases += [gen_distribute_variety(rng, big) for _ in range(ctx.n(nq, nt))]
+    cases += [gen_warm(rng) for _ in range(ctx.n(10, 120))]
+    cases += [gen_init(rng) for _ in range(ctx.n(3, 12))]
     run_cases(ctx, cases)
+    ctx.note('arrival_order_modes', {'random': JIT_MODES.get(0, 0) + JIT_MODES.get(1, 0),
+                                     'highest-rank-first': JIT_MODES.get(2, 0), 'one-straggler': JIT_MODES.get(3, 0)})
     ctx.note('wall_correspondence_s', round(time.time() - t0, 1))
 
 
